@@ -367,14 +367,14 @@ pub fn run(ctx: &Ctx) -> Vec<Eng> {
         });
     }
     let (hz, k) = if ctx.thorough { (48, 3) } else { (40, 2) };
+    dev_selftest();
     let mut e3 = Eng::new(
         "c11-deviations",
         "all histories of exactly H events differing from the default stream P(0.5 s, alternating states) in at most k positions, deviations {N, E1, P(2 s), set(c) x 9}; 3 initial kinds (exercises long accumulation of the single and double integrals)",
         &format!("H={} k={}", hz, k),
     );
-    let cases = deviation_cases(hz, 12, k);
     for init in inits {
-        par_cases(&mut e3, &cases, budget, |c, e| {
+        par_devs(&mut e3, hz, 12, k, budget, |c, e| {
             let mut h: Vec<Ev> = (0..hz).map(|i| Ev::P(S / 2, i % 2)).collect();
             for &(p, a) in c {
                 h[p as usize] = match a {
